@@ -6,6 +6,7 @@ only mutants the reference confirms to be *semantic* (the reference rejects them
 Expected outcome of a semantic mutant under PGPKey.verify: falsy or an exception -- never truthy.
 """
 import warnings
+from datetime import datetime, timezone, timedelta
 
 from ..core import hx, time_limit, Stalled
 from ..ref import wire, keys as RK, sig as RS, grammar
@@ -19,7 +20,7 @@ RULE = ('case = (base triple: signer algorithm x signature kind x hash x produce
 ASSUMPTIONS = ['vf.ref.sig decides whether a mutant is semantic (validated on fixtures and against gpg in C02)', 'cryptography/OpenSSL primitives',
                'forgery across a 64-bit key-id collision is not attempted']
 MIN_COUNTERS = {'quick': {'semantic_mutants': 20000, 'baseline_true': 60, 'sig_bitflips': 10000, 'subject_mutants': 2000, 'key_mutants': 300,
-                          'wrong_verifier': 20, 'type_confusion': 200, 'carrier_mutants': 2000, 'message_content_edits': 300},
+                          'wrong_verifier': 20, 'type_confusion': 200, 'carrier_mutants': 2000, 'message_content_edits': 300, 'several_signature_subjects': 90},
                 'thorough': {'semantic_mutants': 100000, 'baseline_true': 200}}
 BUDGET = {'quick': (600, 1500), 'thorough': (1800, 3600)}
 TECHNIQUE = 'runtime monitoring: data-fault injection (bit flips, edits, type confusion, wrong verifier) with an independent-verifier oracle that filters equivalent mutants'
@@ -583,7 +584,42 @@ def _msgcarrier(ctx, d, pgpy):
         judge(ctx, klass, res, 'message-carrier-bit-flip', d, {'bit': b})
     if d['part'] == 0:
         _msg_content_edits(ctx, d, pgpy, k, sm, pub)
+        _msg_several_signatures(ctx, d, pgpy, k, pub)
     ctx.nontrivial(d)
+
+
+def _msg_several_signatures(ctx, d, pgpy, k, pub):
+    """one verify() call over a message carrying several signatures of which exactly one was made over another text (transplanted): whoever
+    issued which (primary key / signing subkey) and whichever is older, the result must not be truthy and must list the transplanted one as bad"""
+    from pgpy.constants import CompressionAlgorithm
+    sub = list(k.subkeys.values())[0]
+    t0 = datetime(2022, 3, 3, 3, 3, 3, tzinfo=timezone.utc)
+    for bad_by, good_by in (('primary', 'subkey'), ('subkey', 'primary'), ('primary', 'primary'), ('subkey', 'subkey')):
+        for bad_older in (True, False):
+            for ngood in (1, 2):
+                signer = {'primary': k, 'subkey': sub}
+                other = pgpy.PGPMessage.new(b'some other text that was really signed', compression=CompressionAlgorithm.Uncompressed, format='b')
+                m = pgpy.PGPMessage.new(b'the text this message presents', compression=CompressionAlgorithm.Uncompressed, format='b')
+                tb = t0 + timedelta(days=-5 if bad_older else 5)
+                bad = signer[bad_by].sign(other, created=tb)
+                goods = [signer[good_by if j == 0 else bad_by].sign(m, created=t0 + timedelta(hours=j)) for j in range(ngood)]
+                for g in goods:
+                    m |= g
+                m |= bad
+                for form in ('object', 'reloaded'):
+                    mm = m if form == 'object' else pgpy.PGPMessage.from_blob(bytes(m))
+                    ctx.count('evaluations')
+                    ctx.count('semantic_mutants')
+                    ctx.count('several_signature_subjects')
+                    where = {'bad_signature_by': bad_by, 'good_signature_by': good_by, 'bad_is_older': bad_older, 'good_signatures': ngood, 'form': form, 'signer': d['signer']}
+                    res, sv = sigwork.pgpy_verify(pub, mm)
+                    if res == 'true':
+                        ctx.fail('semantic-mutant-verified-true', dict({'base': d, 'mutation': 'message with a transplanted signature among genuine ones'}, **where))
+                    elif res == 'false':
+                        nbad = len(list(sv.bad_signatures))
+                        ngood_seen = len(list(sv.good_signatures))
+                        if nbad != 1 or ngood_seen != ngood:
+                            ctx.fail('verdict-lists-wrong-signatures', dict(where, bad_listed=nbad, good_listed=ngood_seen))
 
 
 def _msg_content_edits(ctx, d, pgpy, k, sm, pub):
